@@ -300,6 +300,8 @@ theorem StatusInv_local (F : Flags) (o : Obs) (x : Act) (ev : Ev) (y : Act) (eff
     have := h1 (by rw [hp]; rfl)
     simp only at hw
     rw [hw] at this; cases this
+  | promptFail hp hc =>
+    cases hF : F.promptErr <;> simp_all [StatusInv, wPhase, Act.stop, promptRes]
   | _ => simp_all [StatusInv, wPhase, Act.stop]
 
 theorem StatusInv_sound (P : Program) (F : Flags) (n : Nat) (tr : List Label) (c : Config)
